@@ -88,6 +88,18 @@ func corpusFor(prop, repoDir, verifDir string) []GenCorpus {
 			all = all[:6]
 		}
 	}
+	if prop == "C33" {
+		// defaults: the key-type corpus, the same schema with ordered-by-user lists generated as plain maps, and the
+		// compressed repository schema (thorough: also the uncompressed one)
+		nm := all[0]
+		nm.Pkg = "vlistsnoom"
+		nm.Flags = append(append([]string{}, nm.Flags...), "-generate_ordered_maps=false")
+		nm.Comment = "key-type corpus with ordered-by-user lists generated as unordered maps"
+		all = []GenCorpus{all[0], nm, all[1], all[2]}
+		if genTier == "quick" {
+			all = all[:3]
+		}
+	}
 	if prop == "C29" {
 		// path-struct API: the compressed repository schema and an OpenConfig-style key-type schema, each generated
 		// together with its path structs into one package
@@ -110,7 +122,7 @@ func corpusFor(prop, repoDir, verifDir string) []GenCorpus {
 		}
 		return out
 	}
-	if genTier == "quick" && prop != "C17" && prop != "C29" {
+	if genTier == "quick" && prop != "C17" && prop != "C29" && prop != "C33" {
 		// quick: the key-type corpus and the compressed repository schema; thorough adds the uncompressed one
 		// (same templates, three more ordered maps and three more keyed lists)
 		return all[:2]
@@ -676,14 +688,148 @@ func bindTemplates(tpl []tplSection, gc GenCorpus, goFile, pathFile string, prop
 		if len(kept) == 0 {
 			kept = []string{"true"}
 		}
+		// children: containers (*T) and map-based lists (map[K]*T) whose element type has PopulateDefaults; the
+		// ghost set popDone_T records the objects of type T for which PopulateDefaults has returned
+		hasPD := map[string]bool{}
+		for _, x := range defStructs {
+			hasPD[x] = true
+		}
+		type childT struct{ field, typ, key, kind string }
+		childrenOf := func(S string) []childT {
+			var cs []childT
+			for _, fl := range structs[S].Fields.List {
+				if len(fl.Names) != 1 {
+					continue
+				}
+				switch t := fl.Type.(type) {
+				case *ast.StarExpr:
+					if id, ok := t.X.(*ast.Ident); ok {
+						if hasPD[id.Name] {
+							cs = append(cs, childT{fl.Names[0].Name, id.Name, "", "container"})
+						} else if strings.HasSuffix(id.Name, "_OrderedMap") {
+							for _, in := range insts {
+								if in.Parent == S && in.Field == fl.Names[0].Name && hasPD[in.V] {
+									cs = append(cs, childT{fl.Names[0].Name, in.V, "", "ordered"})
+								}
+							}
+						}
+					}
+				case *ast.MapType:
+					if se, ok := t.Value.(*ast.StarExpr); ok {
+						if id, ok := se.X.(*ast.Ident); ok && hasPD[id.Name] {
+							cs = append(cs, childT{fl.Names[0].Name, id.Name, exprStr(t.Key), "map"})
+						}
+					}
+				}
+			}
+			return cs
+		}
+		below := map[string]bool{S: true}
+		var order []string
+		var walkBelow func(x string)
+		walkBelow = func(x string) {
+			for _, c := range childrenOf(x) {
+				if !below[c.typ] {
+					below[c.typ] = true
+					walkBelow(c.typ)
+				}
+			}
+		}
+		walkBelow(S)
+		for x := range below {
+			order = append(order, x)
+		}
+		sort.Strings(order)
+		var ghosts, keeps []string
+		for _, x := range order {
+			ghosts = append(ghosts, "popDone_"+x)
+			keeps = append(keeps, fmt.Sprintf("(forall x *%s :: old(in(x, popDone_%s)) ==> in(x, popDone_%s))", x, x, x))
+		}
+		doneOf := func(c childT, recv string) string {
+			switch c.kind {
+			case "container":
+				return fmt.Sprintf("(%s.%s != nil ==> in(%s.%s, popDone_%s))", recv, c.field, recv, c.field, c.typ)
+			case "map":
+				return fmt.Sprintf("(forall k %s :: in(k, %s.%s) ==> in(%s.%s[k], popDone_%s))", c.key, recv, c.field, recv, c.field, c.typ)
+			}
+			return ""
+		}
+		var childDone []string
+		for _, c := range childrenOf(S) {
+			if d := doneOf(c, "X"); d != "" {
+				childDone = append(childDone, d)
+			}
+		}
+		if len(childDone) == 0 {
+			childDone = []string{"true"}
+		}
+		// loop invariants: the loops of the generated method, in source order, each over one list field
+		var loopInvs []string
+		for _, d := range f.Decls {
+			fd, ok := d.(*ast.FuncDecl)
+			if !ok || fd.Name.Name != "PopulateDefaults" || fd.Recv == nil || fd.Body == nil {
+				continue
+			}
+			if se, ok := fd.Recv.List[0].Type.(*ast.StarExpr); !ok || exprStr(se.X) != S {
+				continue
+			}
+			li := 0
+			var earlier []string
+			for _, c := range childrenOf(S) {
+				if c.kind == "container" {
+					earlier = append(earlier, doneOf(c, "t"))
+				}
+			}
+			ast.Inspect(fd.Body, func(n ast.Node) bool {
+				rs, ok := n.(*ast.RangeStmt)
+				if !ok {
+					return true
+				}
+				fieldName := ""
+				switch x := rs.X.(type) {
+				case *ast.SelectorExpr:
+					fieldName = x.Sel.Name
+				case *ast.CallExpr:
+					if se, ok := x.Fun.(*ast.SelectorExpr); ok {
+						if s2, ok := se.X.(*ast.SelectorExpr); ok {
+							fieldName = s2.Sel.Name
+						}
+					}
+				}
+				var cur childT
+				for _, c := range childrenOf(S) {
+					if c.field == fieldName {
+						cur = c
+					}
+				}
+				inv := append([]string{"t != nil"}, keeps...) // (the history sets only grow, also across iterations)
+				inv = append(inv, earlier...)
+				if cur.kind == "map" {
+					inv = append(inv, fmt.Sprintf("(forall k %s :: in(k, visited) ==> in(t.%s[k], popDone_%s))", cur.key, cur.field, cur.typ))
+					earlier = append(earlier, doneOf(cur, "t"))
+				}
+				loopInvs = append(loopInvs, fmt.Sprintf("//@ loop %d invariant %s", li, strings.Join(inv, " && ")))
+				li++
+				return true
+			})
+		}
 		n := 0
 		for _, s := range tpl {
 			if s.Kind != "defaults" {
 				continue
 			}
 			for _, l := range s.Lines {
+				if strings.TrimSpace(l) == "//@ $LOOPINVS" {
+					for _, li := range loopInvs {
+						out.WriteString(li + "\n")
+					}
+					continue
+				}
 				l = expandX(l, "$DEFAULTSSET", strings.Join(set, " && "))
 				l = expandX(l, "$LEAVESKEPT", strings.Join(kept, " && "))
+				l = expandX(l, "$CHILDRENDONE", strings.Join(childDone, " && "))
+				l = strings.ReplaceAll(l, "$KEEPSBELOW", strings.Join(keeps, " && "))
+				l = strings.ReplaceAll(l, "$GHOSTS", strings.Join(ghosts, ", "))
 				out.WriteString(strings.ReplaceAll(l, "$S", S) + "\n")
 			}
 			n++
